@@ -687,7 +687,7 @@ where
 
 	// update ttl if desired
 	if let Some(b) = args.ttl_blocks {
-		ret_slate.ttl_cutoff_height = height + b;
+		ret_slate.ttl_cutoff_height = height.saturating_add(b);
 	}
 
 	// if this is compact mode, we need to create the transaction now
